@@ -11,7 +11,8 @@ ASSUMPTIONS = [
     "single steps i in [0, T) and counted from the end, i in [-T, 0) (running-maximum features and Barrier: [-T, -1), they raise IndexError for -1)",
     "feature get(i) vs get(None)[:, [i]]: 4 eps relative (vectorised and scalar kernels may differ in the last bits); "
     "time_to_maturity 4 eps * maturity absolute; ModuleOutput(Linear) 64 eps * (|W||x|+|b|)",
-    "batched vs stepwise hedge: 64 eps * max(1,|hedge|); P&L and loss tolerances propagated from it",
+    "batched vs stepwise hedge: 64 eps * max(1,|hedge|) (2048 eps for Black-Scholes deltas of lookback / American binary options, which are "
+    "autograd derivatives of ill-conditioned formulas); P&L and loss tolerances propagated from it",
     "prev_hedge feedback and the zero initial state are compared bitwise",
 ]
 
@@ -197,7 +198,12 @@ def check_branches(case, ctx):
     if case["model"] in ("linear", "mlp"):
         x = hedger.inputs.of(deriv, hedger).get(None).detach()
         scale_h += float(x.abs().nan_to_num(0).max()) * 8
-    tol_h = 64 * eps * scale_h
+    factor = 64
+    if case["model"] == "bs" and case["deriv"]["type"] in ("LookbackOption", "AmericanBinaryOption"):
+        # deltas obtained by autograd through the running-maximum formulas cancel leading digits (small sigma sqrt(t)): the last-bit
+        # difference between vectorised and scalar exp/log/erf kernels is amplified (condition numbers up to ~1e2 observed)
+        factor = 2048
+    tol_h = factor * eps * scale_h
     dh = float((h1 - h2).abs().max())
     ctx.check(dh <= tol_h, "C03/branches/hedge", f"batched and stepwise hedges differ by {dh:.3e} > {tol_h:.3e}")
     c = torch.tensor([h.cost for h in hl], dtype=spot.dtype).view(1, -1, 1)
